@@ -21,6 +21,7 @@ import PoetryVerif.Proofs.VRangeTextW
 import PoetryVerif.Proofs.VRangeTextP
 import PoetryVerif.Proofs.VRangeTextX
 import PoetryVerif.Proofs.VRangeTextY
+import PoetryVerif.Proofs.VRangeTextZ
 
 set_option linter.unusedSimpArgs false
 set_option linter.unusedVariables false
@@ -503,6 +504,39 @@ example : let A := Version.mk' 0 [1, 0] none none (some ⟨.dev, 0⟩) none
   intro A B
   exact ⟨by decide, by decide, by decide +kernel⟩
 
+/-- **unions spelt `!=X.postK.*`**: any two-member union `<A || >=B` with `A` a post-release that the printer spells
+with a wildcard is read back as a union admitting the same versions on EVERY version -/
+theorem post_wildcard_spelt_union_text_roundtrip (omax tmin : Version) (ho : omax.wf = true) (ht : tmin.wf = true)
+    (hlt : vk omax < vk tmin) (hw : isWildcardCandidate tmin omax true = true) (hp : omax.isPostrelease = true) :
+    ∃ s c', (VC.union [.rng ⟨none, some omax, false, false⟩, .rng ⟨some tmin, none, true, false⟩]).toStr = .ok s ∧
+      parseConstraint s = .ok c' ∧
+      ∀ p, p.wf = true →
+        c'.allows p = (VC.union [.rng ⟨none, some omax, false, false⟩, .rng ⟨some tmin, none, true, false⟩]).allows p :=
+  post_wildcard_spelt_union_roundtrip omax tmin ho ht hlt hw hp
+
+/-- **when the printer spells a union with a wildcard** (`excludes_single_wildcard_range`): a two-member union whose
+first member carries an upper end is spelt `!=X.*` **iff** it is `<A || >=B` with both flags as written — the first
+member without lower end and with an EXCLUSIVE upper end, the second with an INCLUSIVE lower end and without upper
+end — and `_is_wildcard_candidate(B, A, inverted=True)` holds (then `A` compares equal to `X.dev0` up to its effective
+end and `B` to `next(X).dev0`: `wildcard_spelt_union_text_roundtrip`).  The mirrored shape `<=A || >B` is NOT spelt
+with a wildcard (seeded change C15-4 confuses the two). -/
+theorem wildcard_spelling_iff (a b : VRange) (ha : a.max.isSome = true) (x y : Version) :
+    VC.excludedWildcard [.rng a, .rng b] = some (x, y) ↔
+      (a.min = none ∧ a.max = some x ∧ a.imax = false ∧ b.min = some y ∧ b.imin = true ∧ b.max = none ∧
+        isWildcardCandidate y x true = true) :=
+  excludedWildcard_iff a b ha x y
+
+/-- the four flag combinations on `A = 1.0.dev0`, `B = 1.1.dev0`: only `<A || >=B` is spelt `!=1.0.*`;
+`<=A || >=B`, `<A || >B` and the mirrored `<=A || >B` print their two members -/
+example : let A := Version.mk' 0 [1, 0] none none (some ⟨.dev, 0⟩) none
+    let B := Version.mk' 0 [1, 1] none none (some ⟨.dev, 0⟩) none
+    (VC.union [.rng ⟨none, some A, false, false⟩, .rng ⟨some B, none, true, false⟩]).toStr = .ok "!=1.0.*" ∧
+    (VC.union [.rng ⟨none, some A, false, true⟩, .rng ⟨some B, none, true, false⟩]).toStr = .ok "<=1.0.dev0 || >=1.1.dev0" ∧
+    (VC.union [.rng ⟨none, some A, false, false⟩, .rng ⟨some B, none, false, false⟩]).toStr = .ok "<1.0.dev0 || >1.1.dev0" ∧
+    (VC.union [.rng ⟨none, some A, false, true⟩, .rng ⟨some B, none, false, false⟩]).toStr = .ok "<=1.0.dev0 || >1.1.dev0" := by
+  intro A B
+  exact ⟨by decide +kernel, by decide +kernel, by decide +kernel, by decide +kernel⟩
+
 /-- the unrestricted statement is false of model and code: a version text may end in a separator
 (`1.0post-` is `1.0.post0` for `VERSION_PATTERN`), and in front of the comma that `-` defeats the and-separator's
 `(?<!-)`: `parse_constraint(">=1.0post-").intersect(parse_constraint("<2"))` prints `>=1.0post-,<2`, which
@@ -528,7 +562,8 @@ what the user wrote).  The wildcard spellings `==X.*` / `!=X.*` are proved for t
 for wildcard clauses (`wildcard_eq_text_roundtrip`, `wildcard_ne_text_roundtrip`); and any range the printer spells `==X.*` is read back
 membership-equivalently on every version (`wildcard_spelt_range_text_roundtrip`), likewise any two-member union spelt `!=X.*`
 (`wildcard_spelt_union_text_roundtrip`), and wildcards on post-releases (`post_wildcard_spelt_range_text_roundtrip`;
-altogether `every_wildcard_spelt_range_text_roundtrip`); not proved: unions spelt `!=X.postK.*` (`==1.0.post1.*`) — on the real code a grid of
+altogether `every_wildcard_spelt_range_text_roundtrip`), unions spelt `!=X.postK.*`
+(`post_wildcard_spelt_union_text_roundtrip`), and when exactly a union is spelt with a wildcard (`wildcard_spelling_iff`) (`==1.0.post1.*`) — on the real code a grid of
 128 wildcard-spelt ranges and 102 wildcard-spelt unions (post-releases included) re-parses membership-equivalently. -/
 def text_roundtrip_full_statement : Prop :=
   ∀ c : VC, c.WF → c.isEmpty = false →
